@@ -32,11 +32,6 @@ theorem limit_of_fits_rtcp {max ov : Nat} {cm : Bool} {ctx : Option Nat} {n : Na
     | inl h => subst h; simp only [if_true, hov]; omega
     | inr h => simp only [ctxMki] at h; subst h; cases cm <;> simp [hov] <;> omega
 
-theorem own_of_ok {n : Nat} {ctx : Option Nat} {g : Nat → Nat → Nat} :
-    (Enc.ok n (match ctx with | none => none | some m => some (g n m))).own =
-      .sent (match ctx with | none => n | some m => g n m) := by
-  cases ctx <;> rfl
-
 theorem client_rtp_accepts {max : Nat} {ctx : Option Nat} {p : RtpShape}
     (hw : wellFormed p = true) (hf : rtpMarshalSize p + rtpGrowth ctx ≤ max) :
     clientWriteRtp max ctx p = .sent (rtpMarshalSize p + rtpGrowth ctx) := by
@@ -60,7 +55,7 @@ theorem stream_rtp_accepts {max : Nat} {ctx : Option Nat} {rs : Bool} {p : RtpSh
   unfold streamWriteRtp
   rw [encodeRtp_ok_of_fits hw (limit_of_fits_rtp (ov := streamRtpOverhead) (cm := false) rfl (Or.inr hm) hf)]
   cases ctx with
-  | none => cases rs <;> simp [Enc.reader, Path.wire, rtpGrowth]
+  | none => cases rs <;> simp [Enc.reader, Path.wire]
   | some m => cases rs <;> simp [Enc.reader, Path.wire, rtpGrowth, srtpLen]; omega
 
 theorem client_rtcp_accepts {max : Nat} {ctx : Option Nat} {v : Bool} {len : Nat}
@@ -86,7 +81,7 @@ theorem stream_rtcp_accepts {max : Nat} {ctx : Option Nat} {rs v : Bool} {len : 
   unfold streamWriteRtcp
   rw [encodeRtcp_ok_of_fits (limit_of_fits_rtcp (ov := streamRtcpOverhead) (cm := false) rfl (Or.inr hm) hf) he]
   cases ctx with
-  | none => cases rs <;> simp [Enc.reader, Path.wire, rtcpGrowth]
+  | none => cases rs <;> simp [Enc.reader, Path.wire]
   | some m => cases rs <;> simp [Enc.reader, Path.wire, rtcpGrowth, srtcpLen]; omega
 
 end Rtsp.Size
